@@ -105,6 +105,7 @@ class Shape:
     fields: dict[str, Sort]
     ghost: dict[str, Sort] = field(default_factory=dict)
     invariant: Callable[[Any], Any] | None = None   # type invariant assumed for every instance in a pre-state
+    rebuild: Callable[[Any], None] | None = None     # replay only: recompute state-determined ghost fields from real ones
 
 
 @dataclass
@@ -221,8 +222,8 @@ def lemma(name: str, serves: list[str], src: str) -> Callable[[type], type]:
 
 
 def shape(key: str, fields: dict[str, Sort], ghost: dict[str, Sort] | None = None,
-          invariant: Callable[[Any], Any] | None = None) -> None:
-    REGISTRY.shapes[key] = Shape(key, dict(fields), dict(ghost or {}), invariant)
+          invariant: Callable[[Any], Any] | None = None, rebuild: Callable[[Any], None] | None = None) -> None:
+    REGISTRY.shapes[key] = Shape(key, dict(fields), dict(ghost or {}), invariant, rebuild)
 
 
 def recshape(name: str, **fields: Sort) -> None:
